@@ -45,19 +45,17 @@ Theorem C17_vars_safe : forallb var_ok var_facts = true /\ var_facts <> [].
 Proof. exact vars_safe. Qed.
 Print Assumptions C17_vars_safe.
 
-(* Every call site of security.NewAuthenticator in client/, server/, ccb/ passes the
-   address of a per-connection copy; the two SecurityManager wrappers in
-   security/auth.go still pass their shared pointer (known finding). *)
-Theorem C17_config_private_partial :
-  forallb (fun s => private s || existsb (String.eqb (as_fn s)) known_shared) auth_sites = true /\
-  existsb (fun s => String.eqb (as_fn s) "client.ConnectAndAuthenticateWithConfig" && private s) auth_sites = true /\
-  existsb (fun s => String.eqb (as_fn s) "server.Server.ServeConn" && private s) auth_sites = true.
-Proof. exact config_private_partial. Qed.
-Print Assumptions C17_config_private_partial.
-
-Theorem C17_config_private_refuted : exists s, In s auth_sites /\ private s = false.
-Proof. exact config_private_refuted. Qed.
-Print Assumptions C17_config_private_refuted.
+(* Every call site of security.NewAuthenticator in security/, client/, server/,
+   ccb/ passes the address of a per-connection copy (never a shared pointer);
+   the client, server and both SecurityManager sites are present and private. *)
+Theorem C17_config_private :
+  forallb private auth_sites = true /\
+  site_private "client.ConnectAndAuthenticateWithConfig" = true /\
+  site_private "server.Server.ServeConn" = true /\
+  site_private "security.SecurityManager.ClientHandshake" = true /\
+  site_private "security.SecurityManager.ServerHandshake" = true.
+Proof. exact config_private. Qed.
+Print Assumptions C17_config_private.
 
 (* writes to the published broker stream hold writeMu; serve is its only reader *)
 Theorem C17_broker_serialised : forallb broker_ok broker_io = true /\
